@@ -14,6 +14,8 @@ package main
 //                  ethcall-value-precompile-query (eth_call with value into a precompile query method)
 
 import (
+	"os"
+	abci "github.com/cometbft/cometbft/abci/types"
 	"bytes"
 	"encoding/json"
 	"fmt"
@@ -29,6 +31,7 @@ import (
 
 	"github.com/NibiruChain/nibiru/v2/eth"
 	"github.com/NibiruChain/nibiru/v2/x/common/testutil/testapp"
+	"github.com/NibiruChain/nibiru/v2/app/evmante"
 	"github.com/NibiruChain/nibiru/v2/x/evm"
 	"github.com/NibiruChain/nibiru/v2/x/evm/embeds"
 	"github.com/NibiruChain/nibiru/v2/x/evm/evmtest"
@@ -286,6 +289,49 @@ func runInterleave(r *hx.R, n int, w *hx.W, _ []string) error {
 			obs = "DIFFERS deploy-input-of-the-block-tx-rewritten-by-another-execution"
 		}
 		w.Step("interleave probe yield=between-input-and-create q=simulate-createft-coin", obs)
+	}
+	// probe: a simulated / mempool-checked Ethereum tx with a gas price of exactly zero (legal: it is charged the base fee) runs the
+	// whole EVM ante chain on a discarded branch; the fee parameters the block's txs are charged with afterwards — the base fee the
+	// keeper reports — must be what they were
+	{
+		obs := hx.Recover(func() string {
+			before := k.BaseFeeMicronibiPerGas(base).String() + "/" + k.BaseFeeWeiPerGas(base).String()
+			to := accs[1].EthAddr
+			m, err := signedEthTx(&deps, deps.Sender, k.GetAccNonce(base, deps.Sender.EthAddr), &to, big.NewInt(0), 21000, big.NewInt(0), nil)
+			if err != nil {
+				return "same (probe not built)"
+			}
+			tx, err := m.BuildTx(deps.App.GetTxConfig().NewTxBuilder(), "unibi")
+			if err != nil {
+				return "same (probe not built)"
+			}
+			bz, err := deps.App.GetTxConfig().TxEncoder()(tx)
+			if err != nil {
+				return "same (probe not built)"
+			}
+			_, _, serr := deps.App.Simulate(bz)
+			cres := deps.App.CheckTx(abci.RequestCheckTx{Tx: bz, Type: abci.CheckTxType_New})
+			// (the application's check state may not hold the sender's funds: the decorator that prices the tx is also run directly,
+			// in simulation mode, on a discarded branch of the state the block executes on)
+			for _, mm := range tx.GetMsgs() { // what the signature-verification decorator does before this one
+				if em, ok := mm.(*evm.MsgEthereumTx); ok {
+					em.From = deps.Sender.EthAddr.Hex()
+				}
+			}
+			qctx, _ := base.CacheContext()
+			dec := evmante.NewAnteDecEthGasConsume(deps.App.EvmKeeper, 10_000_000)
+			_, aerr := dec.AnteHandle(qctx.WithIsCheckTx(true), tx, true, func(c sdk.Context, _ sdk.Tx, _ bool) (sdk.Context, error) { return c, nil })
+			if os.Getenv("VERIF_DEBUG_DIFF") != "" {
+				fmt.Fprintf(os.Stderr, "PROBE simulate err=%v checktx code=%d ante err=%v\n", serr, cres.Code, aerr)
+			}
+			after := k.BaseFeeMicronibiPerGas(base).String() + "/" + k.BaseFeeWeiPerGas(base).String()
+			if after != before {
+				return fmt.Sprintf("DIFFERS base-fee-of-the-node-changed-by-a-simulation before=%s after=%s", before, after)
+			}
+			return "same base-fee=" + before
+		})
+		k.Bank.StateDB = nil
+		w.Step("interleave probe yield=between-txs q=simulate-zero-price-ethtx", obs)
 	}
 	for c := 0; c < n; c++ {
 		y := yields[r.Pick(len(yields))]
